@@ -322,7 +322,7 @@ def Known.matches (k : Known) (s : Site) : Bool := k.field == s.field && k.fn ==
 race-detector report; (`field`, `fn`, `kind`) = the violating site of the regenerated table it corresponds to;
 `confirmed` = the detector exhibited it in one of `scenarios` during the pre-study of this check. -/
 def knownRacy : List Known := [
-  ⟨"c14:race:session.go:session.graceCtxWait|session.startReadAndHandle", "session.graceCtxWaitGroup", "session.startReadAndHandle", "W", true, ["close", "redial"],
+  ⟨"c14:race:session.go:session.graceCtxWait|session.startReadAndHandle", "session.graceCtxWaitGroup", "session.startReadAndHandle", "W", true, ["close", "redial", "thrift"],
    "graceCtxWaitGroup.Add(1) in the read loop is not ordered with Wait in Close (graceCtxWait): sync.WaitGroup misuse"⟩,
   ⟨"c14:race:peer.go:peer.getContext|session.graceCtxWait", "session.graceCtxWaitGroup", "peer.getContext", "W", true, ["close", "redial"],
    "graceCtxWaitGroup.Add(1) in getContext (Push) is not ordered with Wait in Close/readDisconnected; also crashes the process: panic 'sync: WaitGroup is reused before previous Wait has returned'"⟩,
